@@ -261,28 +261,25 @@ Proof. intros i c Hc Hi. unfold sep_tokens. apply (W_sep_tokens_go n); auto. Qed
 
 (* ---------- lists with error recovery ---------- *)
 
-Lemma W_sep_list_rec {A} n s (p : P A) sep : W n s p -> forall fuel acc i c,
+Lemma W_sep_list_rec {A} n s (p : P A) sep : W n s p -> forall fuel prev acc i c,
   CacheOK c -> (length i <= n)%nat -> (length i < fuel)%nat ->
-  res_ok false (length i) (fst (sep_list_rec fuel p sep acc i c)) /\
-  CacheOK (snd (sep_list_rec fuel p sep acc i c)).
+  res_ok false (length i) (fst (sep_list_rec fuel p sep prev acc i c)) /\
+  CacheOK (snd (sep_list_rec fuel p sep prev acc i c)).
 Proof.
-  intros Hp. induction fuel as [|f IH]; intros acc i c Hc Hi Hf; [lia|]. cbn [sep_tokens_go sep_list_rec repeat_go until_go until_strict_go until_no_match_go binops_go].
+  intros Hp. induction fuel as [|f IH]; intros prev acc i c Hc Hi Hf; [lia|]. cbn [sep_tokens_go sep_list_rec repeat_go until_go until_strict_go until_no_match_go binops_go].
   destruct (Hp i c Hc Hi) as [H1 H2].
   destruct (p i c) as [[r a|e m|s'|] c1]; cbn [fst snd res_ok length] in *; auto; try tauto.
   - assert (length r <= length i)%nat as Hr by (destruct s; lia).
     destruct (W_exp_token n sep r c1 H2) as [H3 H4]; [lia|].
     destruct (exp_token sep r c1) as [[r2 t2|e2 m2|s2|] c2]; cbn [fst snd res_ok length] in *; auto; try tauto.
-    + destruct (IH (a :: acc) r2 c2 H4) as [H5 H6]; try lia. split; [|exact H6].
-      destruct (sep_list_rec f p sep (a :: acc) r2 c2) as [[r3 a3|e3 m3|s3|] c3]; cbn [fst snd res_ok length] in *; auto; lia.
+    + destruct (IH t2 (a :: acc) r2 c2 H4) as [H5 H6]; try lia. split; [|exact H6].
+      destruct (sep_list_rec f p sep t2 (a :: acc) r2 c2) as [[r3 a3|e3 m3|s3|] c3]; cbn [fst snd res_ok length] in *; auto; lia.
     + split; [lia|auto].
-  - pose proof (CacheOK_add_diag (mkDiag (new_range (first_range i) match e with
-                                                              | [] => first_range i
-                                                              | t :: _ => trange t
-                                                              end) m) c1 H2) as H2'.
+  - pose proof (CacheOK_add_diag (mkDiag (new_range (range_or i (trange prev)) (range_or e (range_or i (trange prev)))) m) c1 H2) as H2'.
     destruct (W_exp_token n sep e _ H2') as [H3 H4]; [lia|].
     destruct (exp_token sep e _) as [[r2 t2|e2 m2|s2|] c2]; cbn [fst snd res_ok length] in *; auto; try tauto.
-    + destruct (IH acc r2 c2 H4) as [H5 H6]; try lia. split; [|exact H6].
-      destruct (sep_list_rec f p sep acc r2 c2) as [[r3 a3|e3 m3|s3|] c3]; cbn [fst snd res_ok length] in *; auto; lia.
+    + destruct (IH t2 acc r2 c2 H4) as [H5 H6]; try lia. split; [|exact H6].
+      destruct (sep_list_rec f p sep t2 acc r2 c2) as [[r3 a3|e3 m3|s3|] c3]; cbn [fst snd res_ok length] in *; auto; lia.
     + split; [lia|auto].
 Qed.
 
@@ -294,9 +291,9 @@ Proof.
   assert (length r <= length i)%nat as Hr by (destruct s; lia).
   destruct (W_exp_token n sep r c1 H2) as [H3 H4]; [lia|].
   destruct (exp_token sep r c1) as [[r2 t2|e2 m2|s2|] c2]; cbn [fst snd res_ok length] in *; auto; try tauto.
-  - destruct (W_sep_list_rec n s p sep Hp (S (length r2)) [a] r2 c2 H4) as [H5 H6]; try lia.
+  - destruct (W_sep_list_rec n s p sep Hp (S (length r2)) t2 [a] r2 c2 H4) as [H5 H6]; try lia.
     split; [|exact H6].
-    destruct (sep_list_rec (S (length r2)) p sep [a] r2 c2) as [[r3 a3|e3 m3|s3|] c3]; cbn [fst snd res_ok length] in *; auto; lia.
+    destruct (sep_list_rec (S (length r2)) p sep t2 [a] r2 c2) as [[r3 a3|e3 m3|s3|] c3]; cbn [fst snd res_ok length] in *; auto; lia.
   - split; [lia|auto].
 Qed.
 
@@ -323,9 +320,9 @@ Proof.
   - destruct (IH (a :: acc) r c1 H2) as (H5 & H6 & H7); try lia. split; [|split; [exact H6|exact H7]].
     destruct (repeat_go f p (a :: acc) r c1) as [[r3 a3|e3 m3|s3|] c3]; cbn [fst snd res_ok length] in *; auto; lia.
   - pose proof (skip_after_error_len (t :: i') e ltac:(discriminate) H1) as Hs. simpl in Hs.
-    destruct (IH acc (skip_after_error (t :: i') e) _ (CacheOK_add_diag (diag_at e m) c1 H2)) as (H5 & H6 & H7); try lia.
+    destruct (IH acc (skip_after_error (t :: i') e) _ (CacheOK_add_diag (diag_at (t :: i') e m) c1 H2)) as (H5 & H6 & H7); try lia.
     split; [|split; [exact H6|exact H7]].
-    destruct (repeat_go f p acc (skip_after_error (t :: i') e) (add_diag (diag_at e m) c1)) as [[r3 a3|e3 m3|s3|] c3];
+    destruct (repeat_go f p acc (skip_after_error (t :: i') e) (add_diag (diag_at (t :: i') e m) c1)) as [[r3 a3|e3 m3|s3|] c3];
       cbn [fst snd res_ok length] in *; auto; lia.
 Qed.
 
@@ -374,11 +371,11 @@ Proof.
       * destruct (until_go f stop p (a :: acc) r c1) as [[r3 a3|e3 m3|s3|] c3]; cbn [fst snd res_ok length] in *; auto; lia.
       * destruct (until_go f stop p (a :: acc) r c1) as [[r3 [l3 [t3|]]|e3 m3|s3|] c3]; cbn [fst snd until_post length] in *; auto; lia.
     + pose proof (skip_after_error_len (t :: i') e ltac:(discriminate) H1) as Hsk. cbn [length] in Hsk.
-      destruct (IH acc (skip_after_error (t :: i') e) _ (CacheOK_add_diag (diag_at e m) c1 H2)) as (H5 & H6 & H7); try lia.
+      destruct (IH acc (skip_after_error (t :: i') e) _ (CacheOK_add_diag (diag_at (t :: i') e m) c1 H2)) as (H5 & H6 & H7); try lia.
       split; [|split; [exact H6|]].
-      * destruct (until_go f stop p acc (skip_after_error (t :: i') e) (add_diag (diag_at e m) c1)) as [[r3 a3|e3 m3|s3|] c3];
+      * destruct (until_go f stop p acc (skip_after_error (t :: i') e) (add_diag (diag_at (t :: i') e m) c1)) as [[r3 a3|e3 m3|s3|] c3];
           cbn [fst snd res_ok length] in *; auto; lia.
-      * destruct (until_go f stop p acc (skip_after_error (t :: i') e) (add_diag (diag_at e m) c1)) as [[r3 [l3 [t3|]]|e3 m3|s3|] c3];
+      * destruct (until_go f stop p acc (skip_after_error (t :: i') e) (add_diag (diag_at (t :: i') e m) c1)) as [[r3 [l3 [t3|]]|e3 m3|s3|] c3];
           cbn [fst snd until_post length] in *; auto; lia.
 Qed.
 
